@@ -721,6 +721,73 @@ let cmd_derive (a : sx list) : string =
        | Unmodelled -> "(unmodelled)")
   | _ -> failwith "derive: arguments"
 
+(* codecloop CODEC START (blk xINPUT xBLOCK (INLEN FREE STATUS CONSUMED PRODUCED_TOTAL)...)...
+   replays the library answers recorded by hook H3 through the model of the encode loops
+   (CodecLoop.replay_block): the blocks of ONE codec state in order, output_vec carried from block to block.
+   -> (ok (blk RES UNUSED VECLEN (calls (INLEN FREE)...) xDATA|none)...)
+   RES ::= (done LEN) | errlib | (errstatus N) | panic-assert | panic-index | panic-overflow | fuel *)
+let nat_of_int_tr (i : int) : Datatypes.nat =
+  let r = ref Datatypes.O in
+  for _ = 1 to i do r := Datatypes.S !r done; !r
+let int_of_nat_tr (n : Datatypes.nat) : int =
+  let r = ref 0 and c = ref n in
+  (try while true do (match !c with Datatypes.O -> raise Exit | Datatypes.S m -> incr r; c := m) done with Exit -> ());
+  !r
+let status_of_int = function
+  | 0 -> CodecLoop.StOk | 1 -> CodecLoop.StBufError | 2 -> CodecLoop.StStreamEnd | 3 -> CodecLoop.StFlushOk
+  | 4 -> CodecLoop.StRunOk | 5 -> CodecLoop.StFinishOk | 6 -> CodecLoop.StMemNeeded | 7 -> CodecLoop.StGetCheck
+  | _ -> failwith "bad status"
+let int_of_status = function
+  | CodecLoop.StOk -> 0 | CodecLoop.StBufError -> 1 | CodecLoop.StStreamEnd -> 2 | CodecLoop.StFlushOk -> 3
+  | CodecLoop.StRunOk -> 4 | CodecLoop.StFinishOk -> 5 | CodecLoop.StMemNeeded -> 6 | CodecLoop.StGetCheck -> 7
+let cmd_codecloop (a : sx list) : string =
+  match a with
+  | codec :: start :: blocks ->
+      let k = (match atom codec with
+               | "deflate" -> CodecLoop.LDeflate | "bzip2" -> CodecLoop.LBzip2 | "xz" -> CodecLoop.LXz
+               | c -> failwith ("codecloop: no loop for codec " ^ c)) in
+      let start = nat_of_int_tr (int_of_string (atom start)) in
+      let vec = ref [] in
+      let out = Buffer.create 1024 in
+      L.iter (fun b ->
+        match head b with
+        | ("blk", input :: stream :: trace) ->
+            let tr = L.map (fun t -> match t with
+                | Ls [_; _; st; cons; ptot] ->
+                    { CodecLoop.rc_status = status_of_int (int_of_string (atom st));
+                      rc_consumed = nat_of_int_tr (int_of_string (atom cons));
+                      rc_ptotal = nat_of_int_tr (int_of_string (atom ptot)) }
+                | _ -> failwith "codecloop: bad trace entry") trace in
+            let ((((e, unused), v), log), data) =
+              CodecLoop.replay_block k start !vec (sx_bytes input) (sx_bytes stream) tr in
+            vec := v;
+            let res = (match e with
+              | CodecLoop.LDone n -> Printf.sprintf "(done %d)" (int_of_nat_tr n)
+              | CodecLoop.LErrLib -> "errlib"
+              | CodecLoop.LErrStatus st -> Printf.sprintf "(errstatus %d)" (int_of_status st)
+              | CodecLoop.LPanicAssert -> "panic-assert"
+              | CodecLoop.LPanicIndex -> "panic-index"
+              | CodecLoop.LPanicOverflow -> "panic-overflow"
+              | CodecLoop.LOutOfFuel -> "fuel") in
+            Buffer.add_string out (Printf.sprintf " (blk %s %d %d (calls%s) %s)" res (int_of_nat_tr unused) (L.length v)
+              (String.concat "" (L.map (fun c -> Printf.sprintf " (%d %d)" (int_of_nat_tr c.CodecLoop.lc_in) (int_of_nat_tr c.CodecLoop.lc_free)) log))
+              (match data with Some d -> hex d | None -> "none"))
+        | _ -> failwith "codecloop: expected (blk ...)") blocks;
+      "(ok" ^ Buffer.contents out ^ ")"
+  | _ -> failwith "codecloop: arguments"
+
+(* snappy xINPUT xRAW CRC xBLOCK : the framing of CodecLoop.snappy_encode / snappy_decode with the raw codec
+   given by the pair (INPUT, RAW) and crc32 INPUT = CRC
+   -> (ok xENCODED DECODED) ; DECODED ::= (ok xBYTES) | err *)
+let cmd_snappy (a : sx list) : string =
+  match a with
+  | [input; raw; crc; block] ->
+      let x = sx_bytes input and r = sx_bytes raw and c = sx_n crc in
+      let enc = CodecLoop.snappy_encode (fun _ -> r) (fun _ -> c) x in
+      let dec = CodecLoop.snappy_decode (fun b -> if b = r then Some x else None) (fun _ -> c) (sx_bytes block) in
+      "(ok " ^ hex enc ^ " " ^ (match dec with Base.Ok d -> "(ok " ^ hex d ^ ")" | _ -> "err") ^ ")"
+  | _ -> failwith "snappy: arguments"
+
 let run_case (line : string) : string =
   try
     match parse_many line with
@@ -741,6 +808,8 @@ let run_case (line : string) : string =
          | "sod" -> cmd_sod args
          | "freeze" -> cmd_freeze args
          | "derive" -> cmd_derive args
+         | "codecloop" -> cmd_codecloop args
+         | "snappy" -> cmd_snappy args
          | "own" -> cmd_own args
          | _ -> failwith ("unknown command " ^ cmd))
     | _ -> "(bad-case)"
